@@ -85,6 +85,51 @@ theorem decompile_kinds (t : Term) : ∀ items : List Item,
       simp only [decompile, itemToks, List.map_cons, List.cons_append, kindsOf]
       rw [kind_frameTok, leadBytes_items, ih]
 
+/-! ### the positional header hypothesis read off the reference tokens -/
+
+theorem hdrBlocks_refKind (f : Frame) (x y : Bytes) : hdrBlocks [refKind f x] = hdrBlocks [refKind f y] := by
+  cases f with
+  | data n => simp only [refKind]; split <;> split <;> rfl
+  | _ => rfl
+
+theorem hdrBlocks_cons (k : K) (r : List K) : hdrBlocks (k :: r) = hdrBlocks [k] ++ hdrBlocks r := by
+  cases k <;> simp [hdrBlocks]
+
+theorem hdrBlocks_kindsOf_append : ∀ a b : List RefTok,
+    hdrBlocks (kindsOf (a ++ b)) = hdrBlocks (kindsOf a) ++ hdrBlocks (kindsOf b) := by
+  intro a
+  induction a with
+  | nil => intro b; simp [kindsOf, hdrBlocks]
+  | cons t r ih =>
+    intro b
+    cases t with
+    | byte x => simpa [kindsOf] using ih b
+    | frame f =>
+      simp only [List.cons_append, kindsOf]
+      rw [hdrBlocks_cons (refKind f (leadBytes (r ++ b))) (kindsOf (r ++ b)),
+        hdrBlocks_cons (refKind f (leadBytes r)) (kindsOf r), ih b,
+        hdrBlocks_refKind f (leadBytes (r ++ b)) (leadBytes r), List.append_assoc]
+    | errProto e =>
+      simp only [List.cons_append, kindsOf]
+      rw [hdrBlocks_cons (errKind e) (kindsOf (r ++ b)), hdrBlocks_cons (errKind e) (kindsOf r), ih b,
+        List.append_assoc]
+
+theorem hdrBlocks_protoToks (t : Term) : hdrBlocks (kindsOf (protoToks t)) = [] := by
+  cases t with
+  | proto e => cases e <;> rfl
+  | _ => rfl
+
+/-- if the blocks found by the reference automaton in the wire bytes are acceptable in their
+    positions, so are those of any frame sequence whose answers are a prefix of its tokens -/
+theorem hdrsOk_of_ref (H : Hdr) {toks : List Tok} {all more : List RefTok} {t : Term} {ref : List RefTok}
+    (hk : toks.map kind = kindsOf (all ++ protoToks t)) (hp : ref = all ++ more)
+    (h : HdrsOkK H .head (kindsOf ref)) : HdrsOk H toks := by
+  unfold HdrsOk
+  rw [hdrsOkK_iff] at h ⊢
+  rw [hk, hdrBlocks_kindsOf_append, hdrBlocks_protoToks, List.append_nil]
+  rw [hp, hdrBlocks_kindsOf_append] at h
+  exact blocksOk_prefix H _ _ _ h
+
 /-- the ending `compile` reports is the given one, unless a refused frame ends the sequence -/
 theorem compile_snd (e : Ending) : ∀ toks : List Tok,
     (compile toks e).2 = e.term ∨ ∃ err, (compile toks e).2 = .proto err := by
